@@ -1179,7 +1179,9 @@ def c09(rep, tier):
     # either by pushing it or by returning it; evaluated for every token kind
     slot_fns = [f for f in mm.facts.functions if f['kind'] == 'lambda' and f.get('parent', '').startswith('MacroDetector::MacroDetector') and f.get('params')]
     # ... or the body of a plain loop over the pattern's tokens (for (const Token &t : md.rule) switch (t.t) ...)
-    for st in walk_stmts(ctor['body']) if ctor.get('body') is not None else []:
+    hosts = [ctor] + [h for h in mm.facts.functions if h.get('body') is not None and h['tmpl'] in ('none', 'inst') and h.get('rec') == 'MacroDetector' and h is not ctor and
+                      h['q'].split('::')[-1] not in ('check_constraint', 'detect', 'getErrors')]        # (a helper of the detector that builds the symbol sequence)
+    for st in [y for h in hosts if h.get('body') is not None for y in walk_stmts(h['body'])]:
         if st['k'] == 'rangefor' and isinstance(st.get('var'), dict) and 'Token' in (st['var'].get('cty') or '') and st.get('body') is not None:
             slot_fns.append({'kind': 'loop', 'params': [st['var']], 'body': st['body']})
     for f in slot_fns:
@@ -1209,7 +1211,8 @@ def c09(rep, tier):
                 if len(vals) == 1:
                     cand[K] = vals[0]
             # keep the kinds that are not mapped to a terminal built from the kind itself
-            nt = {K: v for K, v in cand.items() if 'term(' not in v}
+            subj_txt = (tokp[0].get('name') or 't') + ('' if is_kind_param else '.t')
+            nt = {K: v for K, v in cand.items() if 'term(' not in v and subj_txt not in v}
             if len(cand) == len(kinds) and nt:
                 dslots = nt
     okslots = set(dslots) == slots and len(slots) == 5 and len(set(dslots.values())) == 5
@@ -1716,6 +1719,13 @@ def detect_rule(G, mm):
             if x.get('k') == 'init' and x.get('elems'):
                 first = strip_casts(x['elems'][0])
                 if first is not None and first.get('d') == posd:
+                    loc_ok = True
+            if x.get('k') == 'construct' and (x.get('rec') or '').endswith('Response') and x.get('args'):
+                # Response(location, length, matched) with a constructor that stores its arguments unchanged
+                from .genrules import as_record_init
+                ri = as_record_init(mm.facts, x)
+                lv = dict((a_, b_) for a_, b_ in ri['fields']).get('location') if ri is not None else None
+                if lv is not None and strip_casts(lv).get('d') == posd:
                     loc_ok = True
         if not loc_ok:
             unk.append('location of the returned match')
